@@ -208,6 +208,17 @@ def property_fails(case, got=None):
     for w in got["walls"]:
         if w["cls"] != "PerfectElectricConductor" or w["direction"] != "-" or not w["flag"]:
             return f"wall {w} is not a flagged min-side PEC"
+    taken = set(got["nonwall"])
+    for w in got["walls"]:      # documented naming: _sym_wall_<axis>, then _sym_wall_<axis>_1, _2, ... (first free)
+        base, k, want = f"_sym_wall_{AX[w['axis']]}", 0, None
+        while want is None:
+            cand = base if k == 0 else f"{base}_{k}"
+            if cand not in taken:
+                want = cand
+            k += 1
+        if w["name"] != want:
+            return f"wall on axis {AX[w['axis']]} is called {w['name']!r}, the first free documented name is {want!r}"
+        taken.add(want)
     if got["pmc"] != 0:
         return "a PMC object was created"
     names = got["order"]
@@ -221,7 +232,7 @@ def property_fails(case, got=None):
 
 # ------------------------------------------------------------------- explicit grids: reduce_symmetric
 RTOL = 1e-4
-DELTAS = [0.0, 0.0, 5e-5, 9e-5, 1.1e-4, 2e-4, 1e-2]
+DELTAS = [0.0, 0.0, 0.0, 0.0, 0.0, 5e-5, 9e-5, 9e-5, 1.1e-4, 2e-4, 1e-2]
 
 
 def gen_grid(rng, force_sym=None):
@@ -230,7 +241,7 @@ def gen_grid(rng, force_sym=None):
     scale = rng.choice([1.0, 1e-3, 25e-9, 3.7e-7])
     axes = []
     for a in range(3):
-        n = rng.choice([2, 4, 4, 6, 8]) if rng.chance(0.8) else rng.choice([1, 3, 5, 9])
+        n = rng.choice([2, 4, 4, 6, 8]) if rng.chance(0.9) else rng.choice([1, 3, 5, 9])
         half = [scale * rng.uniform(0.5, 2.0) for _ in range((n + 1) // 2)]
         w = (half[::-1] + half) if n % 2 == 0 else (half[::-1] + half[1:])
         if rng.chance(0.15):                       # uniform axis
